@@ -271,10 +271,14 @@ def _unit(ctx, lat, lon):
 def _hav_of(arc):
     """sin^2(arc / 2) as the rational function the code took the arcsine's square root of"""
     k, d = _inv_def(arc)
-    if k == 2 and d[0] == "arcsin":
+    if k == 2 and d[0] == "arcsin" and arc.quarters == 0:
         return square(d[1])                       # arc = 2 arcsin(q)
-    if k == 1 and d[0] == "arccos":
+    if k == 1 and d[0] == "arccos" and arc.quarters == 0:
         return (1 - Q.of(d[1])) / 2               # arc = arccos(q): sin^2(arc/2) = (1 - cos arc) / 2
+    if k == -2 and d[0] == "arcsin" and arc.quarters == 2:
+        return 1 - square(d[1])                   # arc = 180 deg - 2 arcsin(q): sin^2(arc/2) = cos^2(arcsin q)
+    if k == -1 and d[0] == "arccos" and arc.quarters == 2:
+        return (1 + Q.of(d[1])) / 2               # arc = 180 deg - arccos(q)
     raise NotImplementedError("great_circle_distance built from %r x %r" % (k, d[0]))
 
 
@@ -495,7 +499,7 @@ def k_poslos(ctx):
     r2, lat2, lon2, za2, aa2 = [b[0] for b in back]
 
     def same(a, b):
-        return isinstance(a, AG.Ang) and a.coef == b.coef and a.unit == b.unit
+        return isinstance(a, AG.Ang) and a.coef == b.coef and a.unit == b.unit and a.quarters == b.quarters
     ctx.check("inverse-returns-the-position", poly_eq(r2, r))
     ctx.check("inverse-returns-the-position", same(lat2, lat) and same(lon2, lon), detail="%r %r" % (lat2, lon2))
     ctx.check("inverse-returns-zenith-and-azimuth", same(za2, za), detail="zenith %r" % (za2,))
